@@ -44,6 +44,7 @@ type ReflStats struct {
 	States, Transitions, Edges, Reads int64
 	NilOrigins, NilChecks             int64
 	Jobs                              int
+	TreeHist, TreeReads               int64
 	Sample                            any
 	ByOp                              map[string]int64 // (operation/result kind) -> executions: vacuity scan
 }
@@ -112,6 +113,8 @@ func runMCReflect(c *Ctx, jobs []ReflJob) ([]ReflVerdict, *ReflStats) {
 				NilOrigins           int64            `json:"nil_origins"`
 				NilChecks            int64            `json:"nil_checks"`
 				ByOp                 map[string]int64 `json:"by_op"`
+				TreeHist             int64            `json:"tree_histories"`
+				TreeReads            int64            `json:"tree_reads"`
 			}
 			ok := false
 			for sc.Scan() {
@@ -143,6 +146,8 @@ func runMCReflect(c *Ctx, jobs []ReflJob) ([]ReflVerdict, *ReflStats) {
 			st.NilOrigins += sum.NilOrigins
 			st.NilChecks += sum.NilChecks
 			st.Jobs++
+			st.TreeHist += sum.TreeHist
+			st.TreeReads += sum.TreeReads
 			for k, n := range sum.ByOp {
 				st.ByOp[k] += n
 			}
@@ -254,6 +259,9 @@ func mcReflectCheckJobs(c *Ctx, jobs []ReflJob, inScope func(v ReflVerdict) bool
 	c.R.Cov["mc_reflect_jobs"] = st.Jobs
 	c.R.Cov["mc_reflect_edges_replayed"] = st.Edges
 	c.R.Cov["mc_reflect_reads_compared"] = st.Reads
+	c.R.Cov["all_histories_executed"] = st.TreeHist // every operation sequence up to the bound, not one representative per state
+	c.R.Cov["all_histories_reads_compared"] = st.TreeReads
+	c.R.AddCount("evaluations", st.TreeHist+st.TreeReads)
 	c.R.Cov["nil_origins_exercised"] = st.NilOrigins
 	c.R.Cov["nil_operation_checks"] = st.NilChecks
 	c.R.AddCount("evaluations", st.NilChecks)
